@@ -45,15 +45,15 @@ TEXT = {
               'related to itself only); run_map_order_independent - for every comparison / filter layer and output layer that respect '
               'MP, every template, configuration, file system and include depth, environments whose bindings are MP-related render to '
               'the same result (lock-step induction over the compiled tree: lookups find the same entry because keys are distinct, '
-              'loops visit the sorted entries); run_std_map_order_independent_without_sorts - for the standard engine without sort, '
-              'sort_natural and uniq, with no hypothesis left, the two results AGREE (equal, or one of the two runs is '
-              '`unmodelled`): the standard output layer (fmt.Sprint sorts map keys: sprint_mp, stdOut_respectsM), the standard '
-              'comparisons (== / case-when: equal_mp - equalMaps is a conjunction over all entries; <: opLt_prep_mp, exact; contains: '
-              'opContains_prep_mp) and the other 45 filters (filterRespectsM_std2; json / inspect: marshal_jrel - the two values '
-              'marshal to the same text or neither marshals; type: typeName_mp) respect MP up to `unmodelled` - entries are printed '
-              'and compared in list order, so which part of a value leaves the model first depends on that order; '
-              'run_std_map_order_independent_partial is the same for any set of registered filters given that the registered ones '
-              'among sort, sort_natural, uniq respect MP (not proved here). '
+              'loops visit the sorted entries); run_std_map_order_independent - for the standard engine (stdPrims, stdOut: all 48 '
+              'filters, every comparison), with no hypothesis left but the relation of the environments, the two results AGREE '
+              '(equal, or one of the two runs is `unmodelled`): the standard output layer (fmt.Sprint sorts map keys: sprint_mp, '
+              'stdOut_respectsM), the standard comparisons (== / case-when: equal_mp - equalMaps is a conjunction over all entries; '
+              '<: opLt_prep_mp, exact; contains: opContains_prep_mp) and every filter (filterRespectsM_all; json / inspect: '
+              'marshal_jrel - the two values marshal to the same text or neither marshals; type: typeName_mp; sort / sort_natural: '
+              'insertionSortM_mp, mergeSort_mp - both runs make the same comparisons with the same answers; uniq: canonOrder_mp) '
+              'respect MP up to `unmodelled` - entries are printed and compared in list order, so which part of a value leaves the '
+              'model first, and with an early exit whether it is reached at all, depends on that order. '
               'The JSON printers (json, inspect) do sort inside the model: '
               'jsonObject_perm / json_map_order_independent / json_keyedMap_order_independent prove that '
               'whenever json.Marshal of a map succeeds and the key texts are distinct, every permutation of its entries marshals to '
@@ -69,9 +69,7 @@ TEXT = {
     "design_ref": 'DESIGN.md 6 C02',
     "note": NOTE + ("That every place where the CODE iterates a map sorts first is established by the source tie T5 and the "
               'metamorphic runs, and by the correspondence on shuffled entry lists (the model sorts at exactly those places); the '
-              'whole-render theorem for the standard engine leaves out sort, sort_natural and uniq (they order or identify whole '
-              'elements; the comparator and the printed text they use are shown independent of the entry order, the sorts themselves '
-              'are not transported), and it is an '
+              'whole-render theorem for the standard engine (run_std_map_order_independent) is an '
               'agreement up to `unmodelled`, not an equality. Keys that are neither booleans, numbers nor strings are ordered by '
               'fmt.Sprint in Go: outside every theorem (and two different such keys can print alike: 7.3). There is no theorem about '
               'parsed templates, engines or entry points as objects with state - the '
